@@ -207,6 +207,7 @@ static int t_nbase, t_prev_zero;
 static const void *t_sched(size_t *len, int *rounds);
 static size_t t_defined_image(const void *k, uint8_t *buf);
 static Cipher t_c; static int t_bs, t_ctr, t_be;   /* t_ctr: through the CTR API on back end t_be */
+static int t_noimage;   /* CTR kind whose private layout is not recognised: only the oracles that need no schedule image (return values, the stream) */
 
 static struct {
     Skinny128TweakedKey_t k128;
@@ -294,7 +295,17 @@ static int t_validate_layout(void)
     al = t_defined_image(s, a);
     if (t_c == CK_S128) { memset(&f128, PRIOR_BYTE, sizeof(f128)); skinny128_set_tweaked_key(&f128, KEYS[0], 16); bl = t_defined_image(&f128, b); }
     else { memset(&f64, PRIOR_BYTE, sizeof(f64)); skinny64_set_tweaked_key(&f64, KEYS[0], 8); bl = t_defined_image(&f64, b); }
-    return al == bl && memcmp(a, b, al) == 0;
+    if (al == bl && memcmp(a, b, al) == 0) return 1;
+    /* The tweaked image is not there.  Either the layout changed or the tweaked-key setter of this back end is wrong;
+     * the plain key setter fills the same schedule member, so it tells the two apart: if the plain image is where the
+     * layout says, the layout is right and the kind runs (and reports what the tweaked setter does). */
+    t_reset();
+    if (ctr_set_key(t_c, &TW.co, KEYS[0], (unsigned)t_bs, 0) != 1 || !arena_find(TW.co.raw.ctx)) return 0;
+    s = t_sched(&slen, &rounds);
+    if (t_c == CK_S128) { Skinny128Key_t p; const Skinny128TweakedKey_t *k = s; memset(&p, PRIOR_BYTE, sizeof(p)); skinny128_set_key(&p, KEYS[0], 16);
+                          return k->ks.rounds == p.rounds && memcmp(k->ks.schedule, p.schedule, p.rounds * sizeof(p.schedule[0])) == 0; }
+    else { Skinny64Key_t p; const Skinny64TweakedKey_t *k = s; memset(&p, PRIOR_BYTE, sizeof(p)); skinny64_set_key(&p, KEYS[0], 8);
+           return k->ks.rounds == p.rounds && memcmp(k->ks.schedule, p.schedule, p.rounds * sizeof(p.schedule[0])) == 0; }
 }
 
 static int t_enabled(int op)
@@ -405,7 +416,7 @@ static void t_apply(int op, int check)
     const TOp *o = &t_ops[op];
     int r = 1;
     static uint8_t before[1024]; size_t bl = 0; size_t slen; int rounds;
-    if (check && (o->type == T_BADTWEAK || o->type == T_BADKEY)) { const void *s = t_sched(&slen, &rounds); memcpy(before, s, slen); bl = slen; }
+    if (check && !t_noimage && (o->type == T_BADTWEAK || o->type == T_BADKEY)) { const void *s = t_sched(&slen, &rounds); memcpy(before, s, slen); bl = slen; }
     switch (o->type) {
     case T_TKEY:
         if (t_ctr) r = ctr_set_tweaked_key(t_c, &TW.co, KEYS[o->a], (unsigned)o->b);
@@ -467,12 +478,12 @@ static void t_apply(int op, int check)
     }
     if (!check) return;
     if (o->type == T_BADTWEAK || o->type == T_BADKEY) {
-        const void *s = t_sched(&slen, &rounds);
         if (r != 0) t_report("return-value", op, "invalid %s size accepted (returned %d)", o->type == T_BADKEY ? "key" : "tweak", r);
-        if (slen != bl || memcmp(before, s, slen) != 0) t_report("rejected-call-changed-schedule", op, "schedule changed by a rejected call");
+        if (!t_noimage) { const void *s = t_sched(&slen, &rounds); if (slen != bl || memcmp(before, s, slen) != 0) t_report("rejected-call-changed-schedule", op, "schedule changed by a rejected call"); }
         return;
     }
     if (r != 1) { t_report("return-value", op, "valid call returned %d", r); return; }
+    if (t_noimage) return;
     {
         /* (a) defined image == fresh tweaked key + one set_tweak(last) */
         static uint8_t img[1024], fimg[1024]; size_t il, fl;
@@ -594,7 +605,8 @@ static void body(void)
         for (i = 0; i < n04; ++i, ++job) {
             if (job % g_opts.nshards != g_opts.shard) continue;
             setup_kind(c04[i]);
-            if (t_ctr && !t_validate_layout()) { note_kv("skipped", "%s: private CTR context layout not recognised; kind skipped", c04[i]); continue; }
+            t_noimage = 0;
+            if (t_ctr && !t_validate_layout()) { note_kv("image_oracles_off", "%s: private CTR context layout not recognised; explored with the return-value and stream oracles only", c04[i]); t_noimage = 1; }
             if (!mc_explore(&KIND)) ++cut;
             sample_add("%s: closure under {set_tweaked_key(2 keys x 2 sizes), set_tweak(%d tweaks: Z,F,R1,R2, R1 at every length 1..B-1, NULL at 1 and B%s), invalid sizes}",
                        c04[i], t_ntw, tier_thorough() ? ", every byte value at every position" : "");
